@@ -15,3 +15,29 @@ package upstream
 //@   modifies nothing
 //@   ensures [C17:unix] (len(dialAddr) >= 1 && dialAddr[0] == '@') ==> n == "unix"
 //@   ensures [C17:tcp] !(len(dialAddr) >= 1 && dialAddr[0] == '@') ==> n == "tcp"
+
+// C16: a truncated UDP reply is retried over TCP with the same query; the caller gets the TCP outcome.
+//@ func (u *udpWithFallback) ExchangeContext(ctx context.Context, q []byte) (r *dnsmsg.Msg, err error)
+//@   props C16
+//@   requires u != nil && u.u != nil && u.t != nil
+//@   requires !sameObj(u.u, u.t) -- distinct objects (they have different types; references are untyped in the model)
+//@   ghost nU int = 0
+//@   ghost nT int = 0
+//@   ghost rU *dnsmsg.Msg = nil
+//@   ghost eU error = nil
+//@   ghost tcU bool = false
+//@   ghost rT *dnsmsg.Msg = nil
+//@   ghost eT error = nil
+//@   oncall ExchangeContext: nU = (arg0 == u.u ? nU + 1 : nU)
+//@   oncall ExchangeContext: nT = (arg0 == u.t ? nT + 1 : nT)
+//@   aftercall ExchangeContext: rU = (arg0 == u.u ? ret0 : rU)
+//@   aftercall ExchangeContext: eU = (arg0 == u.u ? ret1 : eU)
+//@   aftercall ExchangeContext: tcU = (arg0 == u.u && ret1 == nil ? ret0.Truncated : tcU)
+//@   aftercall ExchangeContext: rT = (arg0 == u.t ? ret0 : rT)
+//@   aftercall ExchangeContext: eT = (arg0 == u.t ? ret1 : eT)
+//@   modifies *
+//@   callsite ExchangeContext: [C16:same-query] arg1 == ctx && arg2 == q
+//@   ensures [C16:udp-first] nU == 1 && nT <= 1
+//@   ensures [C16:udp-error] eU != nil ==> nT == 0 && r == nil && err == eU
+//@   ensures [C16:not-truncated] eU == nil && !tcU ==> nT == 0 && r == rU && err == nil
+//@   ensures [C16:truncated-retry] eU == nil && tcU ==> nT == 1 && r == rT && err == eT
